@@ -187,6 +187,8 @@ class Know:
         R = out.ref
         assert R is not None
         self.part = set(M.site_of_key.get(k, k) for k in R.executed)  # nodes that take part and are active
+        # debug nodes pulled into a sub-graph run by the debug rule take part as well
+        self.part |= {s for s in T.enter if s in M.spec and M.spec[s].get("debug")}
         self.skipped = set(R.skipped)
         self.failed: Set[str] = set()
 
@@ -217,11 +219,15 @@ class Know:
                 if s in M.res and not M.pooled(s):
                     known_done.add(s)
 
-    def ready(self, dispatched: List[str], known_done: Set[str]) -> Tuple[Set[str], bool]:
-        """(nodes certainly ready and not dispatched, whether some other node may be ready too)."""
+    def ready(self, dispatched: List[str], known_done: Set[str]) -> Tuple[Set[str], Any]:
+        """(nodes certainly ready and not dispatched, the nodes that may or may not be ready too)."""
         M = self.T.M
         certain: Set[str] = set()
-        unsure = False
+        unsure: Set[str] = set()
+        for m in self.skipped:
+            # a deactivated node stays a candidate until the scheduler picks it (which leaves no trace)
+            if m in M.deps and all(d in known_done or d in self.skipped or d not in self.part for d in M.deps[m]):
+                unsure.add(m)
         for m in self.part:
             if m in dispatched:
                 continue
@@ -229,7 +235,7 @@ class Know:
             if any(d in self.skipped for d in ds):
                 # the moment a deactivated dependency was skipped leaves no trace
                 if all(d in known_done for d in ds if d in self.part):
-                    unsure = True
+                    unsure.add(m)
                 continue
             if all(d in known_done for d in ds):
                 certain.add(m)
@@ -312,7 +318,9 @@ def no_idle(T: Trace, case: Dict[str, Any], stats: Optional[Dict[str, int]] = No
             if stats is not None:
                 stats["waits_seq_candidate"] = stats.get("waits_seq_candidate", 0) + 1
             continue
-        if unsure:
+        if any(M.seq.get(u) and M.cp[u] >= best for u in unsure):
+            # a deactivated node, or a node downstream of one, may still be a candidate; it is sequential and its
+            # priority is not below the best certain candidate's: it could be what the scheduler is draining for
             if stats is not None:
                 stats["waits_unjudged"] = stats.get("waits_unjudged", 0) + 1
             continue
